@@ -14,6 +14,9 @@
 #include "core/bitpack.h"
 #include "core/arena.h"
 #include "thrift/parquet_types.h"
+#if MODE == 16
+#include "ref_codecs.h"
+#endif
 
 carquet_status_t carquet_delta_decode_int32(const uint8_t*, size_t, int32_t*, int32_t, size_t*);
 carquet_status_t carquet_delta_decode_int64(const uint8_t*, size_t, int64_t*, int32_t, size_t*);
@@ -254,6 +257,40 @@ void harness(void) {
   #endif
     SYMX_ASSERT(s != 0 || got <= (size_t)cap, "reported size within the capacity");
     free(out);
+#elif MODE == 16     /* structured streams: a SCRIPT (literal run, match with symbolic offset/length, optional tail literals) is
+                        encoded by the independent reference encoder; the decompressor gets an output buffer of EXACTLY the
+                        expected size, so any write past the declared output (e.g. whole-word copies running over the end of a
+                        match) is a bounds violation; the result must equal the expected bytes */
+    uint8_t lit[16]; symx_make_symbolic(lit, 16, "lit");
+    uint8_t ll = in[0] % 11, ml = in[1] % 13, fl = in[2] % 14;     /* lengths from symbolic bytes (L >= 4) */
+    uint8_t ofs = in[3];
+    symx_assume(ll >= 1 && ofs >= 1 && ofs <= ll);
+    uint8_t stream[96], expect[96]; size_t slen = 0, elen = 0;
+  #if CODEC == 0
+    ref_snappy_elem_t sc[3]; memset(sc, 0, sizeof sc);
+    sc[0].kind = REF_SNAPPY_LITERAL; sc[0].len = ll;
+    sc[1].kind = symx_choice(2, "copy kind") ? REF_SNAPPY_COPY2 : REF_SNAPPY_COPY1; sc[1].len = 4 + ml % 8; sc[1].offset = ofs;
+    sc[2].kind = REF_SNAPPY_LITERAL; sc[2].len = fl;
+    int rc = ref_snappy_encode_script(sc, fl ? 3 : 2, lit, 16, stream, sizeof stream, &slen, expect, sizeof expect, &elen);
+  #else
+    ref_lz4_seq_t sq[2]; memset(sq, 0, sizeof sq);
+    sq[0].lit_len = ll; sq[0].match_len = 4 + ml; sq[0].offset = ofs;
+    sq[1].lit_len = fl; sq[1].match_len = 0;
+    int rc = ref_lz4_encode_script(sq, 2, lit, 16, stream, sizeof stream, &slen, expect, sizeof expect, &elen);
+  #endif
+    symx_assume(rc == 0);
+    uint8_t* cin = malloc(slen ? slen : 1); symx_assume(cin != 0); memcpy(cin, stream, slen);
+    uint8_t* out = malloc(elen ? elen : 1); symx_assume(out != 0);
+    size_t got = 0;
+  #if CODEC == 0
+    carquet_status_t s = carquet_snappy_decompress(cin, slen, out, elen, &got);
+  #else
+    carquet_status_t s = carquet_lz4_decompress(cin, slen, out, elen, &got);
+  #endif
+    SYMX_ASSERT(s == CARQUET_OK, "a valid stream from an independent encoder is accepted with an output buffer of exactly the decoded size");
+    SYMX_ASSERT(got == elen, "reported size equals the decoded size");
+    for (size_t i = 0; i < elen; i++) SYMX_ASSERT(out[i] == expect[i], "decoded bytes equal the encoded data");
+    free(cin); free(out);
 #endif
     free(in);
 }
